@@ -134,8 +134,12 @@ type Server struct {
 	// PTR resolving.
 	sysResolvers SystemResolvers
 
-	// access drops disallowed clients.
-	access *accessManager
+	// access drops disallowed clients.  It is an atomic pointer and not a field
+	// protected by serverLock, because [Server.IsBlockedClient] is also called
+	// by the query log and statistics client lookups while serverLock is
+	// already held for reading by the request being logged, and a recursive
+	// read lock deadlocks as soon as a writer is waiting.
+	access atomic.Pointer[accessManager]
 
 	// anonymizer masks the client's IP addresses if needed.
 	anonymizer *aghnet.IPMut
@@ -508,7 +512,7 @@ func (s *Server) Prepare(conf *ServerConfig) (err error) {
 
 	s.setupDNS64()
 
-	s.access, err = newAccessCtx(
+	access, err := newAccessCtx(
 		s.conf.AllowedClients,
 		s.conf.DisallowedClients,
 		s.conf.BlockedHosts,
@@ -516,6 +520,8 @@ func (s *Server) Prepare(conf *ServerConfig) (err error) {
 	if err != nil {
 		return fmt.Errorf("preparing access: %w", err)
 	}
+
+	s.access.Store(access)
 
 	proxyConfig.Fallbacks, err = s.setupFallbackDNS()
 	if err != nil {
@@ -892,16 +898,18 @@ func (s *Server) ServeHTTP(w http.ResponseWriter, r *http.Request) {
 // IsBlockedClient returns true if the client is blocked by the current access
 // settings.
 func (s *Server) IsBlockedClient(ip netip.Addr, clientID string) (blocked bool, rule string) {
-	s.serverLock.RLock()
-	defer s.serverLock.RUnlock()
+	access := s.access.Load()
+	if access == nil {
+		return false, ""
+	}
 
 	blockedByIP := false
 	if ip != (netip.Addr{}) {
-		blockedByIP, rule = s.access.isBlockedIP(ip)
+		blockedByIP, rule = access.isBlockedIP(ip)
 	}
 
-	allowlistMode := s.access.allowlistMode()
-	blockedByClientID := s.access.isBlockedClientID(clientID)
+	allowlistMode := access.allowlistMode()
+	blockedByClientID := access.isBlockedClientID(clientID)
 
 	// Allow if at least one of the checks allows in allowlist mode, but block
 	// if at least one of the checks blocks in blocklist mode.
